@@ -17,11 +17,12 @@ type Atom struct {
 }
 
 // Separators that yacc syntax allows in a gap. The empty one only in 'O' gaps.
-var Separators = []string{" ", "\n", "\t", "/* c */", "// c\n", " \n\t ", "/** c **/", "/* a * b / c */", ""}
+var Separators = []string{" ", "\n", "\t", "/* c */", "// c\n", " \n\t ", "/** c **/", "/* a * b / c */", "\r\n", "/*/ c */", ""}
 
 type LayoutOpts struct {
 	NoSemicolon bool // omit the optional ';' after each rule group
 	RepeatLHS   bool // write alternatives as repeated `A :` instead of `|`
+	GroupDecls  bool // consecutive %token declarations with the same tag share one `%token` line
 }
 
 // Atoms lists the atoms of the specification.
@@ -46,10 +47,32 @@ func (s *Spec) Atoms(o LayoutOpts) []Atom {
 		add('W', "%union")
 		add('O', "{"+s.Union+"}")
 	}
+	var prevTok *TokDecl
 	for _, t := range s.Tokens {
 		if t.NoTokenLine {
 			continue
 		}
+		if o.GroupDecls && prevTok != nil && prevTok.Tag == t.Tag && prevTok.Name != t.Name {
+			// continuation of the previous %token line: NAME [number] NAME [number] ...
+			if IsLit(t.Name) {
+				add('O', t.Name)
+			} else {
+				add('W', t.Name)
+			}
+			a[len(a)-1].Canon = " "
+			if t.Num != 0 {
+				add('W', itoa(t.Num))
+			}
+			if t.Alias != "" {
+				add('O', "\""+t.Alias+"\"")
+				a[len(a)-1].Canon = " "
+			}
+			tt := t
+			prevTok = &tt
+			continue
+		}
+		tt := t
+		prevTok = &tt
 		add('W', "%token")
 		if t.Tag != "" {
 			add('O', "<")
@@ -64,12 +87,22 @@ func (s *Spec) Atoms(o LayoutOpts) []Atom {
 		if t.Num != 0 {
 			add('W', itoa(t.Num))
 		}
+		if t.Alias != "" {
+			add('O', "\""+t.Alias+"\"")
+			a[len(a)-1].Canon = " "
+		}
 	}
 	for _, p := range s.Prec {
 		add('W', "%"+p.Assoc)
 		prevLit := false
+		if p.Tag != "" {
+			add('O', "<")
+			add('O', p.Tag)
+			add('O', ">")
+			prevLit = true // no separator needed after '>'
+		}
 		for i, t := range p.Toks {
-			if IsLit(t) || (i > 0 && prevLit) {
+			if IsLit(t) || ((i > 0 || p.Tag != "") && prevLit) {
 				add('O', t)
 			} else {
 				add('W', t)
